@@ -22,17 +22,21 @@ FLAVOURS = "mpmc_b,mpmc_b_async"
 WITNESSES = [
     "C05_F5_mpmc_recv_timeout_unreachable.case",         # F5: history with the unreachable! panic is a model behaviour
     "C06_F2_wake_one_swallowed_by_dropped_future.case",  # F2: swallowed wake (mpmc_b_async cases; other flavours are skipped)
-    "C06_F17_mpmc2_spurious_repoll_steals.case",         # F17: stale WAITING record after a spurious re-poll (UB afterwards)
     "C04_F3_conversion_resets_closed.case",              # F3: count underflow after converting a closed handle (tagged, not explained)
     "C04_F3_mpmc_async_futures_ignore_closed.case",
+]
+
+# regression programs of repaired findings (corpus/chan): must be explained with no excuse tag
+REGRESSIONS = [
+    "C06_F17_fixed_mpmc2_spurious_repoll.case",          # F17 (fixed cd494c8): spurious re-poll of a registered RecvFuture takes an item
 ]
 
 ASSUMPTIONS = [
     "mpmc2-B: every locked section of the channel's HybridMutex is atomic (the lock itself is verified separately, C10); "
     "the waiter-state CAS and the unpark/wake calls issued while the guard is held belong to that section",
     "mpmc2-B: sequentially consistent memory for the out-of-lock actions (state-byte load, cancel CAS, park/unpark, deferred wakes)",
-    "mpmc2-B: waiter records are identified by fresh ids (no address reuse); a dangling WAITING record (F17) is UB in the real code — "
-    "histories that continue past such a state are tagged known-F17-stale-waiter-record-UB instead of being explained",
+    "mpmc2-B: waiter records are identified by fresh ids (no address reuse); sound because no queued async receiver record outlives "
+    "its future (Fv.Props.Mpmc2B.mpmc2_no_dangling_waiter_record, the invariant finding F17 broke until fix cd494c8)",
     "mpmc2-B: batch forms and the Stream impl are not in the model: cases containing a batch op are counted under TAG skip-batch",
     "mpmc2-B: clone requires a live counterpart count > 0 and a handle is closed at most once; conversions of a closed handle (F3) are tagged",
     "mpmc2-B: C05/C06 are proved in safety form (no quiescent state with a sleeper whose operation is possible); fairness is assumed",
@@ -56,6 +60,10 @@ def tie(ctx, cases=None):
         p = os.path.join(VERIF, "findings", w)
         if os.path.exists(p):
             ts.append(ctx.tie("mpmc2b-witness-" + w[:-5], [h, "run", p], [drv]))
+    for w in REGRESSIONS:
+        p = os.path.join(VERIF, "corpus", "chan", w)
+        if os.path.exists(p):
+            ts.append(ctx.tie("mpmc2b-corpus-" + w[:-5], [h, "run", p], [drv]))
     n = cases or (6000 if ctx.quick else 120000)
     tier = [] if ctx.quick else ["--tier", "thorough"]
     ts.append(ctx.tie("mpmc2b-conc-histories",
